@@ -420,7 +420,7 @@ Proof.
     + destruct (lookup mid (msgs st0)) as [m|] eqn:Em; [|intro E; apply ROk_inj in E; subst; exact H0].
       destruct (merge_step Hash (cf_limit (cfg st0)) (pm_sm m) slot ty rsp) as [[sm'|]| |]; try discriminate.
       2:{ intro E; apply ROk_inj in E; subst; exact H0. }
-      destruct (is_auth_failure ty); [discriminate|].
+      destruct (is_auth_failure ty && ps_initializing sv)%bool; [discriminate|].
       match goal with |- context [set_msg st0 mid ?x] => set (st1 := set_msg st0 mid x) end.
       assert (R1 : rel st0 st1).
       { apply rel_of; [eapply wext_set_msg_same; [exact Em | reflexivity..] | eapply kext_set_msg; [exact Em | reflexivity | reflexivity | auto] | apply cext_clients; reflexivity]. }
